@@ -5,7 +5,7 @@ import copy
 from typing import Dict, List
 
 from .. import coqrun as C
-from .. import core, engprop as E, hx
+from .. import core, engprop as E, hx, hxcorr
 from .. import indicators as X
 
 
@@ -291,6 +291,30 @@ def gen_prefix_program(rng, ctx) -> Dict:
     return {"specs": specs, "rows": rows, "init": rows[:cut], "ops": ops}
 
 
+def corr_ops(rng, ops: List, n_members: int) -> List:
+    """The program in the form the Hexital correspondence takes (members named by position).
+    calculate_index is kept only for members that a calculate() has initialised: before that
+    the helper series of an indicator do not exist yet (outside the model, and outside the
+    property, which asks for indices whose readings are already computed)."""
+    out = []
+    inited = set()
+    for op in ops:
+        if op[0] == "append" and op[1]:
+            inited = set(range(n_members))
+        elif op[0] in ("calculate", "recalculate"):
+            inited |= set(range(n_members)) if op[1] is None else {op[1]}
+        if op[0] == "calc_index":
+            if op[1] not in inited:
+                continue
+            idx = -1 if (op[2] == -1 or rng.random() < 0.5) else (op[2] % 6 if op[3] else op[2] % 6 - 6)
+            out.append(("calc_index", op[1], idx))
+        elif op[0] == "add":
+            out.append(("add", op[1], op[1].get("tf")))
+        else:
+            out.append(tuple(op))
+    return out
+
+
 def run(ctx: core.Ctx) -> int:
     proof = C.check_props("C14")
     ctx.proof_broken.extend(proof["broken"])
@@ -309,7 +333,8 @@ def run(ctx: core.Ctx) -> int:
         falsify_single(ctx, c)
         n = len(c["rows"])
         i = c["probes"][0] % max(1, n)
-        ops = [("calculate",), ("calculate",), ("recalculate",), ("purge",), ("calculate",)]
+        ops = [("calculate",), ("calculate",), ("calc_index", rng.choice([i, i - n, -1]) if n else -1, None),
+               ("recalculate",), ("purge",), ("calculate",)]
         corr.add(c["spec"], {}, c["rows"], ops, rng, {"kind": c["spec"]["kind"]})
         dist[c["spec"]["kind"]] = dist.get(c["spec"]["kind"], 0) + 1
         ctx.seen({"spec": c["spec"], "rows": c["rows"]}, n >= 4)
@@ -322,9 +347,11 @@ def run(ctx: core.Ctx) -> int:
         programs.append(gen_shared_helper_program(rng, ctx))
     for _ in range(ctx.n(80, 900)):
         programs.append(gen_prefix_program(rng, ctx))
+    hc = hxcorr.HxCorr(ctx, "C14")
     for c in programs:
         ctx.count("eval_falsifier")
         falsify_program(ctx, c)
+        hc.add(c["specs"], [s_.get("tf") for s_ in c["specs"]], {}, c["init"], corr_ops(rng, c["ops"], len(c["specs"])), rng)
         for o in c["ops"]:
             dist["op=" + o[0]] = dist.get("op=" + o[0], 0) + 1
         ctx.seen({"specs": c["specs"], "ops": [o[0] for o in c["ops"]], "rows": c["rows"]}, len(c["ops"]) >= 3)
@@ -332,6 +359,7 @@ def run(ctx: core.Ctx) -> int:
             ctx.sample({"mode": "program", "specs": c["specs"], "n": len(c["rows"]), "init": len(c["init"]),
                         "ops": [o[0] for o in c["ops"]][:15]})
     corr.run()
+    hc.run()
     ctx.coverage.update({"input_distribution": dist,
                          "nontrivial_rule": "single-indicator case with >= 4 candles, or operation program with >= 3 operations"})
     return core.finish(ctx, proof)
